@@ -322,7 +322,8 @@ func gexpr(e parser.Expr) string {
 	case *parser.NumberLiteral:
 		if n.Duration {
 			ms := int64(math.Round(math.Abs(n.Val) * 1000))
-			if pr := truncMs(int64(math.Round(math.Abs(n.Val) * 1e9))); cur != nil && pr != ms*1000000 {
+			// printer (346b90dbb7): model.Duration(time.Duration(math.Round(|Val|*1e3)) * time.Millisecond)
+			if pr := int64(time.Duration(math.Round(math.Abs(n.Val)*1e3)) * time.Millisecond); cur != nil && pr != ms*1000000 {
 				cur.dlp[ms*1000000] = pr
 			}
 			return fmt.Sprintf("(EDurLit %s %s)", gallina.Bool(math.Signbit(n.Val)), gallina.Z(ms*1000000))
